@@ -304,6 +304,16 @@ impl<'ast> Visit<'ast> for LoopFinder {
         syn::visit::visit_expr_assign(self, e);
     }
     fn visit_expr_binary(&mut self, e: &'ast syn::ExprBinary) {
+        // D48: L |= R  (on bools: Verus has no non-short-circuit `|`)
+        if let syn::BinOp::BitOrAssign(_) = e.op {
+            let call = e.span().byte_range();
+            let l = e.left.span().byte_range();
+            let r = e.right.span().byte_range();
+            self.vd.push(format!(
+                "{{\"rule\":\"D48\",\"call\":[{},{}],\"lhs\":[{},{}],\"rhs\":[{},{}]}}",
+                call.start, call.end, l.start, l.end, r.start, r.end
+            ));
+        }
         // D34: L &= R  (on bools: Verus has no non-short-circuit `&`)
         if let syn::BinOp::BitAndAssign(_) = e.op {
             let call = e.span().byte_range();
@@ -378,6 +388,25 @@ impl<'ast> Visit<'ast> for LoopFinder {
                         let body = c.body.span().byte_range();
                         self.vd.push(format!(
                             "{{\"rule\":\"D23\",\"call\":[{},{}],\"recv\":[{},{}],\"pat\":[{},{}],\"body\":[{},{}]}}",
+                            call.start, call.end, recv.start, recv.end, pat.start, pat.end, body.start, body.end
+                        ));
+                    }
+                }
+            }
+        }
+        // D47: X.iter_mut().find(|P| C)
+        if e.method == "find" && e.args.len() == 1 {
+            if let (syn::Expr::Closure(c), syn::Expr::MethodCall(it)) = (&e.args[0], &*e.receiver) {
+                if it.method == "iter_mut" && it.args.is_empty() && c.inputs.len() == 1 && matches!(c.inputs[0], syn::Pat::Ident(_)) {
+                    let mut ef = EscapeFinder::default();
+                    ef.visit_expr(&c.body);
+                    if ef.escapes == 0 {
+                        let call = e.span().byte_range();
+                        let recv = it.receiver.span().byte_range();
+                        let pat = c.inputs[0].span().byte_range();
+                        let body = c.body.span().byte_range();
+                        self.vd.push(format!(
+                            "{{\"rule\":\"D47\",\"call\":[{},{}],\"recv\":[{},{}],\"pat\":[{},{}],\"body\":[{},{}]}}",
                             call.start, call.end, recv.start, recv.end, pat.start, pat.end, body.start, body.end
                         ));
                     }
